@@ -26,6 +26,7 @@ func checkC02(c *Ctx, r *Report) {
 	r.rule("C02.R3", "CDR members take their value from the corresponding request member", 10)
 	r.rule("C02.R4", "cause for record closing: 1 on the partial edge, 0 otherwise", 2)
 	r.rule("C02.R5", "opening timestamp: BCD nibbles within 0..9 and sign octet selected by the offset's sign", 9)
+	r.rule("C02.R9", "the record opened or continued under a session reference (ue.Cdr[ref] = rec) is the record added to the subscriber's record list (ue.Records) in the same step, and the reverse: the file is dumped from the list, updates go to the map", 2)
 	r.rule("C02.R8", "every CHOICE value built by the module selects (Present) exactly the alternative it fills", 3)
 	r.rule("C02.R7", "every type reachable from the record round-trips through the JSON deep copy of the split (exhaustive over the type graph)", 40)
 	r.rule("C02.R6", "a record that continues a session starts with a fresh empty usage list (no shared backing array, no repeated containers)", 2)
@@ -38,6 +39,7 @@ func checkC02(c *Ctx, r *Report) {
 	c02SplitFresh(c, r, "C02.R6")
 	c02DeepCopyFidelity(c, r, "C02.R7")
 	c02ChoiceSelectors(c, r, "C02.R8")
+	c02RecordsAgree(c, r)
 }
 
 // ---- R1
@@ -1233,4 +1235,128 @@ func c02ChoiceSelectors(c *Ctx, r *Report, rule string) {
 	if n == 0 {
 		r.viol(rule, "choices", "", "no CHOICE value is built by module code (anchor moved?)")
 	}
+}
+
+// c02RecordsAgree (R9): the subscriber keeps every record twice: in ue.Cdr,
+// keyed by the session reference (where updates and the release find it), and
+// in ue.Records (what dumpCdrFile writes).  Wherever a record is published
+// under a reference, that same record must be appended to the list, and what
+// is appended to the list must be a record published in the same function -
+// otherwise usage recorded through the map never reaches the file (or a closed
+// record is written twice).
+func c02RecordsAgree(c *Ctx, r *Report) {
+	for _, f := range c.ModFuncs {
+		if rootOf(f).Pkg == nil || !strings.HasPrefix(rootOf(f).Pkg.Pkg.Path(), modPath) {
+			continue
+		}
+		type pub struct {
+			ins      ssa.Instruction
+			key, val ssa.Value
+		}
+		var pubs, apps []pub
+		eachInstr(f, func(_ *ssa.BasicBlock, _ int, ins ssa.Instruction) {
+			switch x := ins.(type) {
+			case *ssa.MapUpdate:
+				if n, ok := ueFieldOfValue(x.Map); ok && n == "Cdr" {
+					pubs = append(pubs, pub{ins, x.Key, x.Value})
+				}
+			case *ssa.Store:
+				fa, ok := x.Addr.(*ssa.FieldAddr)
+				if !ok || !typeIs(fa.X.Type(), ctxPath, "ChfUe") || fieldName(fa) != "Records" {
+					return
+				}
+				call, ok := x.Val.(*ssa.Call)
+				if !ok {
+					return
+				}
+				if b, ok := call.Call.Value.(*ssa.Builtin); !ok || b.Name() != "append" || len(call.Call.Args) != 2 {
+					return
+				}
+				for _, e := range variadicElemsOrdered(call.Call.Args[1]) {
+					apps = append(apps, pub{ins, nil, e})
+				}
+			}
+		})
+		if len(pubs) == 0 && len(apps) == 0 {
+			continue
+		}
+		// a local whose address is taken stays in memory: two reads with no assignment
+		// in between are the same value (store-to-load forwarding)
+		resolve := func(v ssa.Value) ssa.Value {
+			v = stripConv(v)
+			for i := 0; i < 4; i++ {
+				ld, ok := v.(*ssa.UnOp)
+				if !ok || ld.Op != token.MUL {
+					break
+				}
+				sv, ok := forwardLoad(ld)
+				if !ok {
+					sv, ok = localStoreBefore(ld)
+				}
+				if !ok {
+					break
+				}
+				v = stripConv(sv)
+			}
+			return v
+		}
+		same := func(a pub, p pub) bool {
+			if resolve(a.val) == resolve(p.val) {
+				return true
+			}
+			// append(ue.Records, ue.Cdr[key]) right after ue.Cdr[key] = rec
+			if lk, ok := stripConv(a.val).(*ssa.Lookup); ok {
+				if n, ok := ueFieldOfValue(lk.X); ok && n == "Cdr" && lk.Index == p.key && instrDominates(p.ins, lk) {
+					return true
+				}
+			}
+			return false
+		}
+		for i, p := range pubs {
+			ok := false
+			for _, a := range apps {
+				if same(a, p) {
+					ok = true
+				}
+			}
+			r.check(ok, "C02.R9", fmt.Sprintf("%s|record published #%d", fnKey(f), i+1), posOf(c, p.ins), "the record stored under the session reference is the one appended to ue.Records",
+				"the record stored under the session reference ("+describe(p.val)+") is not the one appended to the subscriber's record list in "+shortFn(f)+": updates and the release write into a record that dumpCdrFile never sees - everything reported from here on is missing from the CDR file (and the record that was appended instead is written again)")
+		}
+		for i, a := range apps {
+			ok := false
+			for _, p := range pubs {
+				if same(a, p) {
+					ok = true
+				}
+			}
+			r.check(ok, "C02.R9", fmt.Sprintf("%s|record listed #%d", fnKey(f), i+1), posOf(c, a.ins), "the record appended to ue.Records is the one stored under the session reference",
+				"the record appended to the subscriber's record list ("+describe(a.val)+") is not the one stored under the session reference in "+shortFn(f)+": the list and the map of open records drift apart")
+		}
+	}
+}
+
+// localStoreBefore: ld reads a local variable that lives in memory; the value
+// of the last assignment to it earlier in the same block, provided nothing in
+// between is handed the variable's address.
+func localStoreBefore(ld *ssa.UnOp) (ssa.Value, bool) {
+	a, ok := ld.X.(*ssa.Alloc)
+	if !ok {
+		return nil, false
+	}
+	b := ld.Block()
+	for i := instrIndex(ld) - 1; i >= 0; i-- {
+		switch x := b.Instrs[i].(type) {
+		case *ssa.Store:
+			if x.Addr == ssa.Value(a) {
+				return x.Val, true
+			}
+		case ssa.CallInstruction:
+			for _, arg := range x.Common().Args {
+				if arg == ssa.Value(a) {
+					return nil, false
+				}
+			}
+		}
+	}
+	return nil, false
 }
